@@ -7,6 +7,7 @@ toolchain go1.24.1
 require (
 	github.com/iancoleman/strcase v0.3.0
 	github.com/pentops/j5 v0.0.0
+	google.golang.org/protobuf v1.36.6
 )
 
 require (
@@ -31,7 +32,6 @@ require (
 	golang.org/x/text v0.23.0 // indirect
 	google.golang.org/genproto/googleapis/api v0.0.0-20250324211829-b45e905df463 // indirect
 	google.golang.org/genproto/googleapis/rpc v0.0.0-20250324211829-b45e905df463 // indirect
-	google.golang.org/protobuf v1.36.6 // indirect
 	gopkg.in/yaml.v3 v3.0.1 // indirect
 )
 
